@@ -92,6 +92,14 @@ def gen_defect(rng, data):
         if len(x) != len(unit('\n', eff)):
             return None
 
+        nlb = R.NL(recs[i].get('_kind') or 'unix', eff)
+
+        if len(nlb) > 1 and rng.chance(0.4):
+            # only a fragment of the final newline is there (its last 1 ..
+            # len-1 bytes are missing, the length says so)
+            return ({'kind': 'shorten', 'section': i,
+                     'n': rng.randint(1, len(nlb) - 1)}, i, kind)
+
         return ({'kind': 'tail_byte', 'section': i, 'hex': x.hex()}, i, kind)
     elif kind == 'le':
         i = rng.choice(contents)
